@@ -43,6 +43,9 @@ type Plan struct {
 	// AckRejected: at the end, with nothing pending (n = 0), the server retires the salt once more and rejects the
 	// client's latest acknowledgement - a message no caller waits for
 	AckRejected bool
+	// Burst > 1: that rejection comes as the last of Burst notifications in one container (the server went through
+	// several salts in a row); the salt of the last one is the one to keep
+	Burst int `json:",omitempty"`
 }
 
 type Rotation struct {
@@ -140,7 +143,7 @@ func build(src scen.Source, keys []refsrv.RSAKeyJSON, p Plan) (*scen.Scenario, e
 	steps = append(steps, scen.Step{Op: "await-calls"}, scen.Step{Op: "probe"})
 	if p.AckRejected {
 		last := salts(len(p.Rotations))
-		steps = append(steps, scen.Step{Op: "bad-salt", Salt: last, Push: &scen.PushSpec{Kind: "last-ack", Arg: 4 << 32}},
+		steps = append(steps, scen.Step{Op: "bad-salt", Salt: last, N: p.Burst, Push: &scen.PushSpec{Kind: "last-ack", Arg: 4 << 32}},
 			scen.Step{Op: "session-snapshot", Salt: last}, scen.Step{Op: "probe"})
 	}
 	sc.RPC.Steps = steps
@@ -309,6 +312,9 @@ func classes(p Plan) ([]string, bool) {
 	if p.AckRejected {
 		cls = append(cls, "rejected-message-is-an-ack")
 	}
+	if p.Burst > 1 {
+		cls = append(cls, "salt-notifications-in-a-burst")
+	}
 	cls = append(cls, fmt.Sprintf("rotations=%d", len(p.Rotations)))
 	if len(p.Rotations) >= 2 {
 		cls = append(cls, "second-rotation")
@@ -371,6 +377,9 @@ func genPlan(t *rapid.T) Plan {
 			Order: rapid.Uint64().Draw(t, "order")})
 	}
 	p.AckRejected = rapid.IntRange(0, 2).Draw(t, "ackrejected") == 0
+	if p.AckRejected && rapid.Bool().Draw(t, "burst") {
+		p.Burst = rapid.IntRange(2, 6).Draw(t, "nburst")
+	}
 	nk := rapid.IntRange(1, 4).Draw(t, "nkinds")
 	for i := 0; i < nk; i++ {
 		p.Kinds = append(p.Kinds, rapid.SampledFrom(scen.ReqKinds).Draw(t, "kind"))
@@ -426,6 +435,9 @@ func TestC11(t *testing.T) {
 		}
 		for i := range plans {
 			plans[i].AckRejected = i%3 == 1
+			if i%6 == 1 {
+				plans[i].Burst = 2 + i%4
+			}
 		}
 		stride := run.Pick(5, 1)
 		for i, p := range plans {
@@ -439,6 +451,9 @@ func TestC11(t *testing.T) {
 			sc, err := build(&detSource{seed: run.Seed*13 + uint64(idx)}, keys, p)
 			if err != nil {
 				t.Fatalf("INFRA: %v", err)
+			}
+			if p.Burst > 1 {
+				sc.GoMaxProcs = 1 // one processor: what the client starts in the background runs in an order of the scheduler's choosing
 			}
 			n++
 			if err := evaluate(sc, p); err != nil {
